@@ -26,6 +26,10 @@ def ev_name(v, p, alias=None):
     return obj_root(v, alias or {}, p.final.mem)
 
 
+RT_NONE = [None]
+RT_VARIANTS = [()]
+
+
 def _selection_atoms(p, extra=()):
     """partial valuation of L (event.left), R (event in result), H (other event alive), O (other event in result) on a path;
     unknown conditions are returned separately"""
@@ -41,8 +45,23 @@ def _selection_atoms(p, extra=()):
                 and show(noepoch(x[3])).endswith('None{}'):
             truth = bool(c[1]) if x[1] == 'ne' else (not c[1])
             val['O' if other else 'R'] = truth
-        elif x[0] == 'discr' and 'Weak::upgrade' in s and other:
+        elif x[0] == 'discr' and 'Weak::upgrade' in s and other and not s.rstrip(')').endswith('.result_transition'):
             val['H'] = (c == ('eq', 1))
+        elif x[0] == 'discr' and s.rstrip(')').endswith('.result_transition') and RT_NONE[0] is not None:
+            # `matches!(.., ResultTransition::None)`: a test of the discriminant
+            is_none = None
+            if c[0] == 'eq':
+                is_none = int(c[1]) == RT_NONE[0]
+            elif c[0] == 'notin':
+                excl = [int(z) for z in c[1]]
+                if RT_NONE[0] in excl:
+                    is_none = False
+                elif len(excl) == len(RT_VARIANTS[0]) - 1:
+                    is_none = True
+            if is_none is None:
+                unknown.append(s[:80])
+            else:
+                val['O' if other else 'R'] = not is_none
         elif x[0] == 'discr' and re.search(r'(next|next_back)\(', s) and not other:
             continue            # the iterator of the loop
         elif x[0] == 'havoc' or (x[0] == 'op' and x[1] in ('lt', 'gt') and 'index(' in s):
@@ -60,6 +79,9 @@ def check_result_events(ctx, rep, rule='T-result-events'):
     b, ps = rep.explore(ctx, ORDER, rule)
     if b is None:
         return
+    vs = ctx.facts().enum_variants('boolean::sweep_event::ResultTransition') or []
+    RT_VARIANTS[0] = tuple(vs)
+    RT_NONE[0] = vs.index('None') if 'None' in vs else None
     loops = sorted(b.loops())
     first = loops[0] if loops else None
     rows = []       # (partial valuation, selected?)
